@@ -26,3 +26,21 @@ pub fn sizes() {
     println!("Transaction {}", std::mem::size_of::<Transaction>());
     println!("VecU8 {}", std::mem::size_of::<Vec<u8>>());
 }
+
+pub fn probe(args: &[String]) {
+    use elements::encode::deserialize;
+    use elements::pset::PartiallySignedTransaction as Pset;
+    match args.get(0).map(|s| s.as_str()) {
+        Some("pset-serde") => {
+            let b = crate::unhex(&args[1]);
+            let p: Pset = deserialize(&b).unwrap();
+            let j = serde_json::to_string(&p).unwrap();
+            let r: Result<Pset, _> = serde_json::from_str(&j);
+            println!("json roundtrip: {:?}", r.as_ref().map(|x| *x == p).map_err(|e| e.to_string()));
+            let c = serde_cbor::to_vec(&p).unwrap();
+            let r: Result<Pset, _> = serde_cbor::from_slice(&c);
+            println!("cbor roundtrip: {:?}", r.as_ref().map(|x| *x == p).map_err(|e| e.to_string()));
+        }
+        _ => println!("unknown probe"),
+    }
+}
